@@ -500,3 +500,88 @@ func iterEndBounds(c *Ctx, rule string, fs []*ssa.Function, report bool) (int, i
 	}
 	return n, bad
 }
+
+// retAlt is one way a function produces result idx: the returned value in the function's own terms, and the
+// return occurrence (possibly inside a helper whose result the function hands on) that produces it.
+type retAlt struct {
+	E    *ir.Expr
+	Pos  ir.FPos
+	root *ir.FCtx
+	w    *ir.World
+}
+
+// Guarded: the occurrence is unreachable once the edges establishing m (in any call context) are deleted.
+func (a retAlt) Guarded(m ir.Matcher, depth int) bool {
+	return a.w.FlatReaches(a.root, nil, &ir.FlatCut{Matcher: m, Depth: depth}, func(p ir.FPos) bool { return p.Ctx == a.Pos.Ctx && p.In == a.Pos.In }) == nil
+}
+
+// returnAlts enumerates, on the flat view of f, the alternatives of result idx: a return whose value is the result
+// of an expanded helper call is replaced by that helper's returns (recursively), so `return k.pick(ctx, x)` with the
+// branch inside pick yields the same alternatives as the branch written inline.
+func returnAlts(c *Ctx, f *ssa.Function, idx int) []retAlt {
+	return altsOf(c, f, idx, nil, nil)
+}
+
+func altsOf(c *Ctx, f *ssa.Function, idx int, at0 ssa.Instruction, val ssa.Value) []retAlt {
+	w := c.W
+	root := w.FlatRoot(f)
+	rets := map[*ir.FCtx][]*ssa.Return{}
+	seen := map[[2]any]bool{}
+	w.FlatWalk(root, nil, nil, func(p ir.FPos) bool {
+		if rt, ok := p.In.(*ssa.Return); ok {
+			if k := [2]any{p.Ctx, p.In}; !seen[k] {
+				seen[k] = true
+				rets[p.Ctx] = append(rets[p.Ctx], rt)
+			}
+		}
+		return true
+	})
+	var out []retAlt
+	var expand func(ctx *ir.FCtx, rt *ssa.Return, i, depth int)
+	var expandV func(ctx *ir.FCtx, at ssa.Instruction, v ssa.Value, depth int)
+	expand = func(ctx *ir.FCtx, rt *ssa.Return, i, depth int) {
+		if i >= len(rt.Results) {
+			return
+		}
+		expandV(ctx, rt, rt.Results[i], depth)
+	}
+	expandV = func(ctx *ir.FCtx, at ssa.Instruction, v ssa.Value, depth int) {
+		var call *ssa.Call
+		j := 0
+		switch x := v.(type) {
+		case *ssa.Call:
+			call = x
+		case *ssa.Extract:
+			if cl, ok := x.Tuple.(*ssa.Call); ok {
+				call, j = cl, x.Index
+			}
+		}
+		if call != nil && depth < 6 {
+			if kid := ctx.Child(call); kid != nil && len(rets[kid]) > 0 {
+				for _, r2 := range rets[kid] {
+					expand(kid, r2, j, depth+1)
+				}
+				return
+			}
+		}
+		e := w.ExprOf(v)
+		if ctx != root {
+			e = ctx.Apply(e)
+		}
+		out = append(out, retAlt{E: e, Pos: ir.FPos{Ctx: ctx, In: at}, root: root, w: w})
+	}
+	if val != nil {
+		expandV(root, at0, val, 0)
+		return out
+	}
+	for _, rt := range rets[root] {
+		expand(root, rt, idx, 0)
+	}
+	return out
+}
+
+// valueAlts: like returnAlts, for the value v used by instruction `at` of f (typically the result of a helper call
+// that is stored or passed on): the ways the helper produces it.
+func valueAlts(c *Ctx, f *ssa.Function, at ssa.Instruction, v ssa.Value) []retAlt {
+	return altsOf(c, f, 0, at, v)
+}
